@@ -76,7 +76,7 @@ def mandatory_bins(tier):
     b += ["mode_" + m for m in ("ecb", "cbc", "cfb", "ofb", "ctr")]
     b += ["cfb_seg%d" % s for s in range(1, 17)]
     b += ["ctr_wraparound", "ctr_carry", "all_compositions", "empty_chunk", "feeder_pkcs7", "feeder_none", "stream_bs1", "stream_bs15", "stream_bs16", "stream_bs17", "stream_bs8192", "stream_with_short_reads",
-          "adapter_history", "adapter_shared_key_iv", "adapter_trailing_zero_plaintext", "adapter_len_mod16_0", "adapter_len_mod16_1", "adapter_len_mod16_15", "adapter_explicit_iv", "adapter_default_iv", "global_state_unchanged"]
+          "adapter_history", "adapter_shared_key_iv", "adapter_trailing_zero_plaintext", "adapter_len_mod16_0", "adapter_len_mod16_1", "adapter_len_mod16_15", "adapter_explicit_iv", "adapter_default_iv", "adapter_long_data", "global_state_unchanged"]
     return b
 
 
@@ -506,6 +506,9 @@ def run_shard(spec, ctx):
                 op = rng.choice(("encrypt", "decrypt", "mac"))
                 if op == "decrypt":
                     n = 16 * rng.randrange(1, 6)
+                    if h % 6 == 2 and c == 1:
+                        n = rng.choice((8176, 8192, 8208, 16400, 24592))
+                        ctx.bin("adapter_long_data")
                     data = rng.randbytes(n)
                     if rng.random() < 0.5:
                         # ciphertext of a plaintext that ends in zero bytes
@@ -515,6 +518,9 @@ def run_shard(spec, ctx):
                     exp = ossl.aes_cbc(key, eiv, data, False)
                 else:
                     n = rng.choice((1, 15, 16, 17, 31, 32, 33)) if rng.random() < 0.5 else rng.randrange(1, 100)
+                    if h % 6 == 4 and c == 1:
+                        n = rng.choice((8191, 8192, 8193, 16385, 20000))
+                        ctx.bin("adapter_long_data")
                     data = rng.randbytes(n)
                     if rng.random() < 0.2:
                         data = data[: n // 2] + bytes(n - n // 2)
